@@ -19,7 +19,7 @@ tvars == <<l, S, G, viol, drift>>
 SeqSet(s) == {s[i] : i \in DOMAIN s}
 PoolOf(ps) == [s \in {ps[i].s : i \in DOMAIN ps} |-> SeqSet((CHOOSE x \in SeqSet(ps) : x.s = s).peers)]
 BlOf(b)    == [snap |-> SeqSet(b.snap), fmt |-> SeqSet(b.fmt), peer |-> SeqSet(b.peer)]
-QOf(qq)    == [open |-> qq.open, n |-> qq.n, e |-> [i \in 0..(qq.n - 1) |-> qq.e[i + 1]]]
+QOf(qq)    == [open |-> qq.open, n |-> qq.n, e |-> [i \in 0..(qq.n - 1) |-> qq.e[i + 1]], rej |-> SeqSet(qq.rej)]
 
 \* level-2 ghost, driven by observed events only
 \*   late[i]: the stored instance of i arrived when its sender was already rejected
@@ -314,11 +314,31 @@ StepF(e) ==
             /\ UNCHANGED viol
        [] OTHER -> UNCHANGED <<G, viol>>
 
+\* ------------------------------------------------------------ mode P: the real state provider
+(* One line = one call of the real lightClientStateProvider (real light.Client, scripted
+   primary / witness / RPC server).  e.chain is the honest chain (what the validators
+   signed); whatever the providers say, an answer that is returned must be the function of
+   that chain that stateprovider.go documents.                                            *)
+StepP(e) ==
+  LET lb == [h \in 1..Len(e.chain) |-> e.chain[h]]
+      avail == SPNeeds(e.call, e.h) \subseteq DOMAIN lb
+      touched == e.lie # "none" /\ (e.lie \in {"fork_primary", "fork_witness"} \/ e.at \in SPNeeds(e.call, e.h) \/ e.lie = "params")
+  IN /\ S' = S /\ G' = G
+     /\ drift' = drift
+          \cup FailIf(e.lie = "none" /\ avail /\ ~e.ok, D("SP: honest call failed"))
+          \cup FailIf(e.ok /\ touched /\ e.lie # "missing", D("SP: call succeeded although a needed block was falsified"))
+     /\ viol' = viol
+          \cup FailIf(e.ok /\ ~avail, V("TrustedOnly", "provider_answer_without_block"))
+          \cup FailIf(e.ok /\ avail /\ e.call = "apphash" /\ e.hash # SPAppHashOf(lb, e.h), V("TrustedOnly", "provider_apphash"))
+          \cup FailIf(e.ok /\ avail /\ e.call = "state" /\ e.st # SPStateOf(lb, e.h), V("TrustedOnly", "provider_state"))
+          \cup FailIf(e.ok /\ avail /\ e.call = "commit" /\ e.cm # SPCommitOf(lb, e.h), V("TrustedOnly", "provider_commit"))
+
 Step ==
   /\ l <= Len(Trace)
   /\ LET e == Trace[l] IN
        IF e.ev = "Reset" THEN StepReset(e)
        ELSE IF e.mode = "F" THEN StepF(e)
+       ELSE IF e.mode = "P" THEN StepP(e)
        ELSE StepD(e)
   /\ l' = l + 1
 
